@@ -220,6 +220,16 @@ fn fresh_oracle(c: &FreshCase) -> Verdict {
         let two = catch(|| (w.encryptor.encrypt_zero_new_at_with_u_prng(&kid, &mut rng(p)), w.encryptor.encrypt_zero_new_at_with_u_prng(&kid, &mut rng(p))));
         if let Ok((x, y)) = two { if n * kk >= 8 {
             check!(x.poly(1) != y.poly(1) && x.poly(0) != y.poly(0), "two public-key encryptions handed the same mask-generator state are identical: the error polynomials are not fresh");
+            // ... and the same mask u: c1 - c1' = e1 - e1' is a difference of two error polynomials (|.| <= 42, times t in BGV),
+            // looked at in the first RNS component in coefficient form
+            let q0 = w.key_moduli[0];
+            let mut d: Vec<u64> = (0..n).map(|i| crate::refmath::submod(x.poly(1)[i], y.poly(1)[i], q0)).collect();
+            if x.is_ntt_form() { w.context.key_context_data().unwrap().small_ntt_tables()[0].inverse_ntt_negacyclic_harvey(&mut d); }
+            let bound = 42u128 * if w.ps.scheme == Scheme::BGV { w.ps.t.max(1) as u128 } else { 1 };
+            if (2 * bound + 1) < q0 as u128 {
+                let worst = d.iter().map(|v| (*v).min(q0 - *v)).max().unwrap_or(0) as u128;
+                check!(worst <= bound, "two public-key encryptions handed the same mask-generator state do not share their mask: c1 - c1' has a coefficient of magnitude {worst} (two error terms allow {bound})");
+            }
         } }
     }
     let a = w.keygen.create_public_key_with_u_prng(false, &mut rng(p)); let b = w.keygen.create_public_key_with_u_prng(false, &mut rng(p));
